@@ -164,7 +164,7 @@ func (t *thread) park() {
 		runtime.Goexit()
 	}
 	t.steps++
-	if t.x.trace != nil {
+	if t.x.trace != nil || t.x.opts.Sites {
 		t.site = callerSite()
 	}
 	t.hand.signalParked(t.x)
@@ -466,6 +466,37 @@ func MutexLocked(p any) bool {
 		return false
 	}
 	return m.locked
+}
+
+// ThreadState is what an oracle may see of one managed thread (Options.Sites must be set for
+// Site): the operation it is parked on, where, and how many operations it has performed so far.
+type ThreadState struct {
+	Name     string
+	Harness  bool
+	Op       string
+	Site     string
+	Steps    int
+	Finished bool
+}
+
+// Threads describes every managed thread other than the caller, in creation order. Used by
+// lasso (fair-cycle) oracles, which compare two snapshots of one execution.
+//
+//go:norace
+func Threads() []ThreadState {
+	t := cur()
+	if t == nil {
+		return nil
+	}
+	x := t.x
+	out := make([]ThreadState, 0, x.nthreads)
+	for _, o := range x.threads[:x.nthreads] {
+		if o == t {
+			continue
+		}
+		out = append(out, ThreadState{Name: o.name, Harness: o.harness, Op: o.op.String(), Site: o.site, Steps: int(o.steps), Finished: o.finished})
+	}
+	return out
 }
 
 // callerSite returns the innermost frame outside the shim packages (trace mode only).
